@@ -3,7 +3,7 @@ CONSTANTS
   SEQMOD = 8
   FRAGMOD = 16
   RECENT = 4
-  UpLens <- Len2
+  UpLens <- Len1
   DnLens <- Len2
   CAPUP = 1
   FRAGSIZE = 1
@@ -11,19 +11,19 @@ CONSTANTS
   QMEMD = 2
   QMEMP = 3
   OUTQ = 1
-  SRVRESEND = 5
+  SRVRESEND = 1
   CLIRESEND = 3
   LAZY = TRUE
-  MaxLoss = 1
-  MaxDup = 1
+  MaxLoss = 0
+  MaxDup = 2
   MaxQ = 6
   MaxTO = 1
   PROMPT = FALSE
 INVARIANTS
+  NeverTwice
   TypeOK
   Integrity
   NoSurplus
-  NeverTwice
   HeldAtMostTwo
   FragBound
   LastFlagRight
